@@ -122,3 +122,11 @@ def run_driver(pid, lines, timeout=1800):
     if p.returncode != 0 or len(out) != len(lines):
         raise RuntimeError(f"driver failed rc={p.returncode} got {len(out)} replies for {len(lines)} requests: {p.stderr[:500]}")
     return out
+
+
+def leanchecker(modules, timeout=3600):
+    """Independent re-check of the compiled theorems (thorough tier). Returns (ok, log)."""
+    with _Lock():
+        p = subprocess.run(["lake", "env", "leanchecker"] + list(modules), cwd=LEAN, stdout=subprocess.PIPE,
+                           stderr=subprocess.STDOUT, text=True, timeout=timeout)
+    return p.returncode == 0, p.stdout[-2000:]
